@@ -1,14 +1,215 @@
-"""xarray model (filled in with C05)."""
-from .values import Unsupported
+"""xarray model (DESIGN §3.3): a 1-D Dataset whose variables share one dimension, with an optional dimension
+coordinate (sorted times) used for label slicing."""
+from __future__ import annotations
+
+import types as _t
+
+import numpy as _np
+
+from . import explorer as _ex
+from . import symnp as snp
+from .values import SBool, SInt, STime, Sym, Unsupported, as_stime
 
 
-class Dataset:
-    def __init__(self, *a, **k):
-        raise Unsupported("xarray Dataset model not built yet")
+class _Var:
+    """Dataset.variables[name]"""
+
+    def __init__(self, arr, dims):
+        self._arr, self.dims = arr, dims
+
+    def to_numpy(self):
+        return self._arr.copy()
+
+    @property
+    def values(self):
+        return self._arr.copy()
+
+    @property
+    def dtype(self):
+        return self._arr._dt
+
+    @property
+    def shape(self):
+        return self._arr.shape
+
+    @property
+    def size(self):
+        return self._arr.size
+
+    @property
+    def ndim(self):
+        return self._arr.ndim
+
+
+class _Coords(dict):
+    pass
 
 
 class DataArray:
-    pass
+    def __init__(self, ds, name, arr, positions=None):
+        self._ds, self.name, self._arr = ds, name, arr
+        self.dims = ds._dims[name]
+        self._positions = positions      # row positions relative to the dataset (None = all)
+
+    @property
+    def coords(self):
+        out = _Coords()
+        for cname in self._ds._coords:
+            if self._ds._dims[cname] == self.dims:
+                arr = self._ds._arrs[cname]
+                if self._positions is not None:
+                    arr = arr[self._positions]
+                out[cname] = DataArray(self._ds, cname, arr, self._positions)
+        return out
+
+    @property
+    def size(self):
+        return self._arr.size
+
+    @property
+    def ndim(self):
+        return self._arr.ndim
+
+    @property
+    def shape(self):
+        return self._arr.shape
+
+    @property
+    def dtype(self):
+        return self._arr._dt
+
+    @property
+    def values(self):
+        return self._arr.copy()
+
+    def to_numpy(self):
+        return self._arr.copy()
+
+    def sel(self, **indexers):
+        if not indexers:
+            return DataArray(self._ds, self.name, self._arr, self._positions)
+        sl = self._ds._label_slices(self, indexers)
+        (dim, s), = sl.items()
+        if self._positions is not None:
+            raise Unsupported("nested sel")
+        return DataArray(self._ds, self.name, self._arr[s] if isinstance(s, slice) else self._arr[s], s)
+
+    def __getitem__(self, k):
+        return self._arr[k]
+
+
+class Dataset:
+    def __init__(self, data_vars=None, coords=None, attrs=None):
+        self._arrs, self._dims, self._coords = {}, {}, []
+        self.attrs = dict(attrs or {})
+        for name, (dims, arr) in (coords or {}).items():
+            self._add(name, dims, arr)
+            self._coords.append(name)
+        for name, (dims, arr) in (data_vars or {}).items():
+            self._add(name, dims, arr)
+
+    def _add(self, name, dims, arr):
+        if isinstance(dims, str):
+            dims = (dims,)
+        if not isinstance(arr, snp.ndarray):
+            arr = snp.asarray(arr)
+        if arr.a.ndim != len(dims):
+            raise ValueError("dimensions do not match the array")
+        self._arrs[name] = arr
+        self._dims[name] = tuple(dims)
+
+    @property
+    def variables(self):
+        return {k: _Var(v, self._dims[k]) for k, v in self._arrs.items()}
+
+    @property
+    def data_vars(self):
+        return {k: self[k] for k in self._arrs if k not in self._coords}
+
+    @property
+    def dims(self):
+        out = {}
+        for k, d in self._dims.items():
+            for dn, n in zip(d, self._arrs[k].shape):
+                out[dn] = n
+        return out
+
+    def __contains__(self, k):
+        return k in self._arrs
+
+    def __getitem__(self, name):
+        if name not in self._arrs:
+            raise KeyError(name)
+        return DataArray(self, name, self._arrs[name])
+
+    def close(self):
+        pass
+
+    def filter_by_attrs(self, **kw):
+        raise Unsupported("Dataset.filter_by_attrs")
+
+    def _label_slices(self, da, indexers):
+        """{dim: slice(i, j)} for a label slice on a sorted dimension coordinate (pandas slice_indexer: both ends
+        inclusive): i = #(t < start), j = #(t <= stop)."""
+        out = {}
+        for dim, lab in indexers.items():
+            if dim not in da.dims:
+                raise KeyError(f"{dim!r} is not a valid dimension or coordinate")
+            if dim not in self._coords or self._dims[dim] != (dim,):
+                raise KeyError(f"no index found for coordinate {dim!r}")
+            idx = self._arrs[dim]
+            if isinstance(lab, snp.ndarray):
+                # an array of labels: each must be found in the (unique) index; positions in the given order
+                pos = []
+                for x in lab.a.flat:
+                    found = None
+                    for k, t in enumerate(idx.a):
+                        if t is x:
+                            found = k
+                            break
+                    if found is None:
+                        for k, t in enumerate(idx.a):
+                            if bool(t == x):
+                                found = k
+                                break
+                    if found is None:
+                        raise KeyError(f"not all values found in index {dim!r}")
+                    pos.append(found)
+                ex = _ex.current()
+                ts = list(idx.a)
+                for i in range(len(ts)):
+                    for j in range(i + 1, len(ts)):
+                        ex.side_condition((ts[i] != ts[j]).b, "label-array selection on an index with duplicate labels")
+                out[dim] = _np.array(pos, dtype=int)
+                continue
+            if not isinstance(lab, slice) or lab.step is not None:
+                raise Unsupported("label indexer other than a plain slice or a label array")
+            ex = _ex.current()
+            ts = list(idx.a)
+            for a, b in zip(ts, ts[1:]):
+                ex.side_condition((a <= b).b, "label slice on a non-monotonic dimension coordinate")
+            n = len(ts)
+            if lab.start is None:
+                i = 0
+            else:
+                st = as_stime(lab.start)
+                i = 0
+                while i < n and bool(ts[i] < st):
+                    i += 1
+            if lab.stop is None:
+                j = n
+            else:
+                sp = as_stime(lab.stop)
+                j = 0
+                while j < n and bool(ts[j] <= sp):
+                    j += 1
+            out[dim] = slice(i, j, None)
+        return out
+
+
+def map_index_queries(da, indexers, **kw):
+    sl = da._ds._label_slices(da, indexers) if indexers else {}
+    return _t.SimpleNamespace(dim_indexers=sl)
 
 
 def open_dataset(*a, **k):
@@ -19,5 +220,11 @@ def load_dataset(*a, **k):
     raise Unsupported("xarray.load_dataset")
 
 
-import types as _t
-core = _t.SimpleNamespace(indexing=_t.SimpleNamespace(map_index_queries=None))
+core = _t.SimpleNamespace(indexing=_t.SimpleNamespace(map_index_queries=map_index_queries))
+
+
+def __getattr__(name):
+    from .values import UnsupportedAttribute
+    if name.startswith("__"):
+        raise AttributeError(name)
+    raise UnsupportedAttribute(f"xarray.{name}")
